@@ -647,7 +647,11 @@ func (o *operation) handle() {
 		o.request.Body = tw
 		if reqMsg.stage != stageEmpty {
 			if err := tw.prepareMessage(); err != nil {
+				// The first message cannot be sent to the handler: fail the RPC
+				// instead of only failing the handler's attempt to read it.
 				tw.err = err
+				rw.reportError(err)
+				return
 			}
 		}
 	}
